@@ -67,7 +67,10 @@ def real_value(kind):
     return [5.0, float("nan"), float("inf"), float("-inf")][kind]
 
 
-def build(env, n1, n2, nvars, idim, kinds, transposed=False):
+BNAMES = ["b", "tolerance", "drop", "method"]     # names of the second dimension (three are option names of Dataset.sel)
+
+
+def build(env, n1, n2, nvars, idim, kinds, transposed=False, bname="b"):
     """dataset over a (n1) x b (n2, 0 = no such dim) with x(a,b[,t]) and optionally y(a,b)"""
     la, lb = A[:n1], B[:n2]
     it = iter(kinds)
@@ -90,10 +93,10 @@ def build(env, n1, n2, nvars, idim, kinds, transposed=False):
     def nest_y():
         return [[val(cellsy[(a, b)]) for b in lb] if lb else val(cellsy[(a, None)]) for a in la]
 
-    dims = ("a",) + (("b",) if lb else ())
+    dims = ("a",) + ((bname,) if lb else ())
     coords = {"a": la}
     if lb:
-        coords["b"] = lb
+        coords[bname] = lb
     if idim:
         coords["time"] = T
     dv = {"x": (dims + (("time",) if idim else ()), nest_x())}
@@ -102,7 +105,7 @@ def build(env, n1, n2, nvars, idim, kinds, transposed=False):
     if transposed and lb and not idim and nvars == 1:
         # the variable is stored as (b, a) although the coordinates are declared a, b: then Dataset.dims is
         # (b, a) while the coordinates / indexes keep the order (a, b)
-        dv = {"x": (("b", "a"), [[val(cellsx[(a, b, None)]) for a in la] for b in lb])}
+        dv = {"x": ((bname, "a"), [[val(cellsx[(a, b, None)]) for a in la] for b in lb])}
     if env.mode == "sym":
         ds = mx.Dataset(coords=coords, data_vars=dv)
     else:
@@ -133,7 +136,7 @@ def loc_missing(method, cellsx, cellsy, a, b, idim, nvars, t=None):
 
 
 def body_find(E, n1, n2, nvars, idim, meth, ign, k0, k1, k2, k3, k4, k5, k6, k7, k8, k9, k10, k11,
-              k12, k13, k14, k15, k16, k17, transposed=False):
+              k12, k13, k14, k15, k16, k17, transposed=False, bn=0):
     n1 = concretize(n1, 1, 3)
     n2 = concretize(n2, 0, 2)
     nvars = concretize(nvars, 1, 2)
@@ -145,16 +148,17 @@ def body_find(E, n1, n2, nvars, idim, meth, ign, k0, k1, k2, k3, k4, k5, k6, k7,
         if env.mode == "sym":
             env.swap_module("numpy", env.np)
         transposed = cbool(transposed) and n2 >= 1 and not idim and nvars == 1
-        ds, cx, cy, la, lb = build(env, n1, n2, nvars, idim, kinds, transposed)
+        bname = BNAMES[concretize(bn, 0, 3)]
+        ds, cx, cy, la, lb = build(env, n1, n2, nvars, idim, kinds, transposed, bname)
         if not idim:
             ignore = None
         else:
             ignore = ["time", "time", {"time"}, None][ign]
         fn_args, missing = ca.find_missing_cases(ds, ignore_dims=ignore, method=method)
         over_t = idim and ignore is None
-        want_args = ("a",) + (("b",) if lb else ()) + (("time",) if over_t else ())
+        want_args = ("a",) + ((bname,) if lb else ()) + (("time",) if over_t else ())
         if transposed:
-            want_args = ("b", "a")          # grid order = the dataset's dimension order
+            want_args = (bname, "a")          # grid order = the dataset's dimension order
         if tuple(fn_args) != want_args:
             return False
         want = []
@@ -271,6 +275,12 @@ CONDS = (
                 "meth", [0, 1], fixed=dict(nvars=1, idim=False), timeout=300,
                 bounds=_B1 + "no internal dimension; also with the variable stored transposed (b, a) relative to "
                                     "the coordinate declaration (3x2); meth 0 isnull 1 isfinite")
+    + [make_cond(_G, "find_names", body_find, "n1:int bn:int meth:int " + " ".join("k%d:int" % i for i in range(4)),
+                 ["1 <= n1 <= 2 and 1 <= bn <= 3 and 0 <= meth <= 1", " and ".join("0 <= k%d <= 3" % i for i in range(4))],
+                 fixed=dict(n2=2, nvars=1, idim=False, ign=0, transposed=False,
+                            **{"k%d" % i: 0 for i in range(4, 18)}), timeout=300,
+                 bounds="a (1-2) x second dimension (2) named 'tolerance', 'drop' or 'method' (option names of "
+                        "Dataset.sel): dimension names are data, every null pattern")]
     + split_conds(_G, "find_ignored", body_find, _SIGF, ["1 <= n1 <= 3 and 0 <= n2 <= 2 and 1 <= ign <= 2", _KR,
                                                          "not transposed"],
                   "meth", [0, 1], fixed=dict(nvars=1, idim=True), timeout=400,
